@@ -54,9 +54,16 @@ def cfgs_scalar_sets(tier, inc):
 
 
 def cfgs_with_O0(tier, inc):
-    """default configurations + -O0 builds (at -O0 an aligned-only intrinsic maps to the aligned instruction literally)"""
+    """default configurations + -O0 builds (at -O0 an aligned-only intrinsic maps to the aligned instruction literally) + -O2 / -O3 builds with the
+    compilers' default strict aliasing (every other build passes -fno-strict-aliasing): type-based alias analysis may reorder a caller's
+    typed element accesses around a library access made through another type"""
     import run
     out = run.default_configs(tier)
+    sa = ("-fstrict-aliasing",)
+    out += [C.Config(["SSE2"], opt="-O2", extra=sa), C.Config(["AVX2"], std="c++17", opt="-O3", extra=sa), C.Config(list(C.EVERYTHING), cxx="clang++", std="c++17", opt="-O2", extra=sa),
+            C.Config([], std="c++14", opt="-O2", extra=sa)]
+    if tier != "quick":
+        out += [C.Config(m, cxx=cxx, std="c++20", opt="-O2", extra=sa) for m in (["SSE4_1"], ["AVX512F"], ["AVX512VL", "AVX512BW"]) for cxx in ("g++", "clang++")]
     for m in ([], ["SSE2"], ["SSE4_1"], ["AVX2"], ["AVX512VL", "AVX512BW"], list(C.EVERYTHING)):
         out.append(C.Config(m, cxx="g++", std="c++11", opt="-O0"))
         if tier != "quick":
